@@ -15,7 +15,7 @@ PERS = "aiomysensors.persistence.Persistence"
 
 def run(ctx: Ctx, chk) -> None:
     chk.assume("A1", "A3", "A5")
-    enter_order(ctx, chk)
+    chk.run_rule(enter_order, ctx)
     rule = "LIFE-1"
     chk.rule(rule, "a task that is cancelled and then awaited does not re-raise CancelledError into the awaiter (protected await, or a body that absorbs cancellation at every suspension point)")
     pers = ctx.cls(PERS)
@@ -26,10 +26,10 @@ def run(ctx: Ctx, chk) -> None:
             funcs.extend(f.nested.values())
     n = lifecycle.life1(ctx, chk, rule, funcs)
     chk.floor(rule, "cancel-then-await sites in Persistence", n, 1)
-    life2(ctx, chk)
-    life3(ctx, chk)
-    stop1(ctx, chk)
-    cadence1(ctx, chk)
+    chk.run_rule(life2, ctx)
+    chk.run_rule(life3, ctx)
+    chk.run_rule(stop1, ctx)
+    chk.run_rule(cadence1, ctx)
 
 
 def _calls(g: CFG, pred):
